@@ -1,6 +1,7 @@
 package rules
 
 import (
+	"go/token"
 	"go/types"
 	"strings"
 
@@ -459,4 +460,98 @@ func ruleRestoredGroupReplaysTheJoins(c *eng.Ctx) {
 		pos = c.Pos(direct[0].(ssa.Instruction))
 	}
 	c.Check(len(adds) > 0 && len(direct) == 0, "a group restored from a snapshot re-adds its members the way a join does", pos, "group.addMember(member.Id, member.Streams) per recorded member, nothing else touches the heaps", "newConsumerGroup fills the subscriber heaps or balances on its own instead of re-adding each recorded member through addMember: the assignments a join-by-join history produced are not reproduced, so a server restored from a snapshot hands out other assignments for the same group epoch than the servers that applied the joins from the log")
+}
+
+// Rules for the round-10 misses.
+
+// ruleFollowerAlwaysAsksTheLeader (R02.2 extension): a server that starts following reconciles its log with the leader every
+// time — also when its newest messages already carry the current leader epoch: the leader may have lost the unflushed tail of
+// that very epoch in a crash and gone on in it, and only its answer tells the follower that its own tail is no longer there.
+func ruleFollowerAlwaysAsksTheLeader(c *eng.Ctx) {
+	fn := c.Fn("server.(*partition).truncateUncommitted")
+	if fn == nil {
+		return
+	}
+	// the request sits in a bounded retry loop (`for i := 0; i < 3; i++`): the loop is entered at least once, so the exit
+	// edge of a counting loop whose counter starts below its constant bound is not a way around the request (paths that
+	// did pass the request end there anyway)
+	zeroTrip := func(e eng.Edge) bool {
+		iff, ok := e.From.Instrs[len(e.From.Instrs)-1].(*ssa.If)
+		if !ok || e.Succ != 1 {
+			return false
+		}
+		bo, ok := iff.Cond.(*ssa.BinOp)
+		if !ok || (bo.Op != token.LSS && bo.Op != token.LEQ) {
+			return false
+		}
+		ph, isPhi := bo.X.(*ssa.Phi)
+		bound, okB := eng.ConstVal(bo.Y)
+		if !isPhi || !okB {
+			return false
+		}
+		for _, in := range ph.Edges {
+			if k, okK := eng.ConstVal(in); okK && (k < bound || (bo.Op == token.LEQ && k == bound)) {
+				return true
+			}
+		}
+		return false
+	}
+	q := &eng.PathQuery{Fn: fn, FromEntry: true, Target: isReturn, CutInstr: eng.IsCallTo("server.partition.sendLeaderOffsetRequest"), CutEdgeFn: zeroTrip}
+	w := q.Find()
+	c.Check(w == nil, "a follower asks the leader where its epoch ends every time it starts following", c.P.Pos(fn.Pos()), "every way out of truncateUncommitted passes sendLeaderOffsetRequest", "truncateUncommitted can return without having asked the leader ("+w.String()+"): a follower that skips the request because its log already ends in the current leader epoch keeps a tail the leader lost in a crash and went on without — it appends the leader's new messages behind its stale ones and the replicas differ below the high watermark")
+}
+
+// ruleEveryEntryCarriesItsOwnEpoch (R02.5 / R01.1 extension): a replicated batch can cross a leader-epoch boundary; the entry
+// entriesForMessageSet builds for a message set takes offset, timestamp AND leader epoch from that set's own header.
+func ruleEveryEntryCarriesItsOwnEpoch(c *eng.Ctx) {
+	fn := c.Fn(cl + "entriesForMessageSet")
+	if fn == nil {
+		return
+	}
+	recv := func(ref string) ssa.Value {
+		for _, cs := range eng.CallsIn(fn, ref) {
+			if a := cs.Common().Args; len(a) > 0 {
+				return eng.Strip(a[0])
+			}
+		}
+		return nil
+	}
+	off, ep := recv(cl+"messageSet.Offset"), recv(cl+"messageSet.LeaderEpoch")
+	if off == nil || ep == nil {
+		c.Unresolved("the messageSet.Offset / messageSet.LeaderEpoch reads of entriesForMessageSet")
+		return
+	}
+	c.Check(off == ep, "an entry's leader epoch is read from the message set its offset is read from", c.P.Pos(fn.Pos()), "m.Offset() and m.LeaderEpoch() of the same m, per message set", "entriesForMessageSet reads the leader epoch from another value ("+eng.Describe(ep)+") than the message set it reads the offset from ("+eng.Describe(off)+"): every entry of a replicated batch gets the epoch of the first set, the follower never records the newer epoch of a batch that crosses a leader change, and once it leads it answers LastOffsetForLeaderEpoch too high — a returning replica keeps part of its divergent tail")
+}
+
+// ruleEnforcerReadsThePolicyFile (R15.9 extension): SIGHUP revokes permissions by having the enforcer load its policy again.
+// That only works while the enforcer is built on the policy FILE (casbin.NewEnforcer(model path, policy path)): an enforcer
+// built on text captured at start-up (a string adapter, an expanded copy) reloads that same text and reports success.
+func ruleEnforcerReadsThePolicyFile(c *eng.Ctx) {
+	p := c.P
+	n := 0
+	for _, fn := range p.Funcs {
+		if !p.IsModuleFunc(fn) {
+			continue
+		}
+		for _, cs := range eng.CallsIn(fn, "github.com/casbin/casbin/v2.NewEnforcer") {
+			n++
+			elems := variadicElems(cs.Common().Args[len(cs.Common().Args)-1])
+			ok := len(elems) == 2
+			for i, want := range []string{"TLSClientAuthzModel", "TLSClientAuthzPolicy"} {
+				if !ok {
+					break
+				}
+				v := elems[i]
+				if mi, isMI := v.(*ssa.MakeInterface); isMI {
+					v = mi.X
+				}
+				ok = eng.LoadNamed(want, nil)(eng.Strip(v))
+			}
+			c.Check(ok, "the policy enforcer is built on the configured model and policy files", c.Pos(cs.(ssa.Instruction)), "casbin.NewEnforcer(config.TLSClientAuthzModel, config.TLSClientAuthzPolicy)", "the enforcer in "+fn.Name()+" is not built on the configured policy file path: LoadPolicy on SIGHUP then re-reads whatever it was built on — text captured at start-up — and a permission removed from the policy file stays granted until the server is restarted")
+		}
+	}
+	if n == 0 {
+		c.Unresolved("a casbin.NewEnforcer call in the module")
+	}
 }
